@@ -1141,5 +1141,382 @@ theorem emitLoop {call : Call α} (hc : CallOK call) (fuel : Nat) (n : Nat) (L :
       · exact Frame.trans (Frame.trans (Frame.set (Frame.set (Frame.refl _ _) _ _ (by simp)) _ _ (by simp))
           (hF1.mono (by simp))) hF2
 
+/-! ### the statements around the loops -/
+
+/-- `self.residual_start`: a time stamp, or the initial untyped infinity (`-inf` for `neg = true`) -/
+def encRS (neg : Bool) : Option Tm → DV α
+  | none => .uinf neg
+  | some r => .tm r
+
+/-- `self.residual_start` after `if sample: self.residual_start = sample[-1][0]` -/
+def newRS (rs : Option Tm) (s : ASig α) : Option Tm :=
+  match s.getLast? with
+  | some (t, _) => some t
+  | none => rs
+
+/-- the stack (top first) after the last pending segment is re-ended at the first new time stamp plus `end` -/
+def reend (b : Rat) (s : ASig α) (stk : List (Seg α)) : List (Seg α) :=
+  match s, stk with
+  | (t0, _) :: _, lp :: rest => ⟨lp.lo, t0.add b, lp.v⟩ :: rest
+  | _, _ => stk
+
+/-- the closing `if last: …` -/
+def finalRes (res : ASig α) (last : Option (Tm × α)) : ASig α :=
+  match last with
+  | none => res
+  | some (t, v) =>
+      match res.getLast? with
+      | none => [(t, v)]
+      | some (t', _) => if Tm.lt t' t then res ++ [(t, v)] else res
+
+theorem evalIdx_neg1_encSig (s : ASig α) (q : Tm × α) (h : s.getLast? = some q) :
+    evalIdx (encSig s) (.int (-1)) = .ok (encSmp q) := by
+  rcases List.eq_nil_or_concat s with rfl | ⟨l, q', hs⟩
+  · simp at h
+  · rw [List.concat_eq_append] at hs
+    subst hs
+    simp at h
+    subst h
+    have : encSig (l ++ [q']) = .list (l.map encSmp ++ [encSmp q']) := by simp [encSig]
+    rw [this, evalIdx_neg1]
+
+theorem dropStmt_spec (call : Call α) (fuel : Nat) {env : Env α} {s : ASig α} {neg : Bool} {rs : Option Tm}
+    (hs : env.lookup "sample" = some (encSig s)) (hrs : env.lookup "self.residual_start" = some (encRS neg rs))
+    (hinf : rs = none → neg = false → ∀ t v rest, s = (t, v) :: rest → t ≠ .inf) :
+    ∃ env', exec call fuel dropStmt env = .ok (env', .none) ∧
+      env'.lookup "sample" = some (encSig (dropRepeat rs s)) ∧ Frame ["sample"] env env' := by
+  have gs := getLoc_of_lookup hs
+  have grs := getLoc_of_lookup hrs
+  unfold dropStmt
+  cases s with
+  | nil =>
+      have hcond : evalE call env (.and_ (.loc "sample") (.bin .eq (.idx (.idx (.loc "sample") (.int 0)) (.int 0))
+          (.loc "self.residual_start"))) = .ok (.list []) := by
+        rw [evalE_and (x := .list []) (t := false) (by simp [evalE, gs, encSig]) rfl]; rfl
+      rw [exec_ite hcond (b := false) rfl]
+      simp only [Bool.false_eq_true, if_false]
+      refine ⟨env, exec_skip, ?_, Frame.refl _ _⟩
+      rw [hs]; cases rs <;> rfl
+  | cons p rest =>
+      obtain ⟨t, v⟩ := p
+      have hdrop : ∃ c : Bool, evalBin .eq (.tm t : DV α) (encRS neg rs) = .ok (.bool c) ∧
+          dropRepeat rs ((t, v) :: rest) = if c then rest else (t, v) :: rest := by
+        cases rs with
+        | some r =>
+            refine ⟨t == r, by simp [encRS, cmpEqTm], ?_⟩
+            simp [dropRepeat]
+        | none =>
+            refine ⟨false, ?_, by simp [dropRepeat]⟩
+            cases neg with
+            | true => simp [encRS, evalBin, isCmp, cmpDV, isTimeLike, toXT, toTm, cmpXT]
+            | false =>
+                have hne := hinf rfl rfl t v rest rfl
+                have : (XT.t t == XT.t Tm.inf) = false := by
+                  rw [xt_beq, beq_eq_false_iff_ne]; exact hne
+                simp [encRS, evalBin, isCmp, cmpDV, isTimeLike, toXT, toTm, cmpXT, this]
+      obtain ⟨c, hc1, hc2⟩ := hdrop
+      have hcond : evalE call env (.and_ (.loc "sample") (.bin .eq (.idx (.idx (.loc "sample") (.int 0)) (.int 0))
+          (.loc "self.residual_start"))) = .ok (.bool c) := by
+        rw [evalE_and (x := encSig ((t, v) :: rest)) (t := true) (by simp [evalE, gs]) (by simp [encSig, truthy])]
+        simp [evalE, gs, grs, encSig, encSmp, evalIdx, pyIndex, hc1]
+      rw [exec_ite hcond rfl, hc2]
+      cases c with
+      | false =>
+          simp only [Bool.false_eq_true, if_false]
+          exact ⟨env, exec_skip, hs, Frame.refl _ _⟩
+      | true =>
+          simp only [if_true]
+          rw [exec_setLoc (v := encSig rest) (by simp [evalE, gs, encSig])]
+          exact ⟨_, rfl, by simp, Frame.set (Frame.refl _ _) _ _ (by simp)⟩
+
+theorem reendStmt_spec {call : Call α} (hc : CallOK call) (fuel : Nat) {env : Env α} {s : ASig α} {neg : Bool}
+    {rs : Option Tm} {stk : List (Seg α)} {b : Rat} {xe : DV α}
+    (hs : env.lookup "sample" = some (encSig s)) (hrs : env.lookup "self.residual_start" = some (encRS neg rs))
+    (hout : env.lookup "out" = some (.list (pyStk stk))) (hend : env.lookup "end" = some xe) (hxe : FinOK xe b)
+    (hlen : env.lookup "len" = none) :
+    ∃ env', exec call fuel reendStmt env = .ok (env', .none) ∧
+      env'.lookup "self.residual_start" = some (encRS neg (newRS rs s)) ∧
+      env'.lookup "out" = some (.list (pyStk (reend b s stk))) ∧
+      Frame ["self.residual_start", "last_prev", "first_now", "out"] env env' := by
+  have gs := getLoc_of_lookup hs
+  unfold reendStmt
+  cases s with
+  | nil =>
+      rw [exec_ite (d := .list []) (b := false) (by simp [evalE, gs, encSig]) rfl]
+      simp only [Bool.false_eq_true, if_false]
+      exact ⟨env, exec_skip, by simpa [newRS] using hrs, by simpa [reend] using hout, Frame.refl _ _⟩
+  | cons p0 rest =>
+      obtain ⟨t0, v0⟩ := p0
+      obtain ⟨q, hq⟩ : ∃ q, ((t0, v0) :: rest).getLast? = some q := by
+        cases h : ((t0, v0) :: rest).getLast? with
+        | none => simp at h
+        | some q => exact ⟨q, rfl⟩
+      rw [exec_ite (d := encSig ((t0, v0) :: rest)) (b := true) (by simp [evalE, gs]) (by simp [encSig, truthy])]
+      simp only [if_true]
+      have h1 : exec call fuel (.setLoc "self.residual_start" (.idx (.idx (.loc "sample") (.neg (.int 1))) (.int 0))) env
+          = .ok (setLoc "self.residual_start" (.tm q.1) env, .none) := by
+        apply exec_setLoc
+        have e1 : evalE call env (.idx (.loc "sample") (.neg (.int 1))) = .ok (encSmp q) := by
+          rw [evalE_idx (x := encSig ((t0, v0) :: rest)) (k := .int (-1)) (by simp [evalE, gs]) (by simp [evalE, evalNeg])]
+          exact evalIdx_neg1_encSig _ _ hq
+        rw [evalE_idx e1 (show evalE call _ (.int 0) = .ok (.int 0) from rfl)]
+        simp [encSmp]
+      rw [exec_seq_ok h1]
+      have hnew : newRS rs ((t0, v0) :: rest) = some q.1 := by
+        unfold newRS; rw [hq]
+      rw [hnew]
+      cases stk with
+      | nil =>
+          rw [exec_ite (d := .list []) (b := false) (by simp [evalE, getLoc_of_lookup hout]) rfl]
+          simp only [Bool.false_eq_true, if_false]
+          exact ⟨_, exec_skip, by simp [encRS], by simpa [reend] using hout,
+            Frame.set (Frame.refl _ _) _ _ (by simp)⟩
+      | cons lp restk =>
+          have hout' : env.lookup "out" = some (.list (pyStk restk ++ [encSeg lp])) := by rw [hout, pyStk_cons]
+          generalize henv1 : setLoc "self.residual_start" (.tm q.1) env = env1
+          have hF1 : Frame ["self.residual_start", "last_prev", "first_now", "out"] env env1 := by
+            subst henv1; exact Frame.set (Frame.refl _ _) _ _ (by simp)
+          have hout1 : env1.lookup "out" = some (.list (pyStk restk ++ [encSeg lp])) := by
+            subst henv1; simp [hout']
+          have hlen1 : env1.lookup "len" = none := by subst henv1; simp [hlen]
+          have hs1 : env1.lookup "sample" = some (encSig ((t0, v0) :: rest)) := by subst henv1; simp [hs]
+          have hend1 : env1.lookup "end" = some xe := by subst henv1; simp [hend]
+          have hrs1 : env1.lookup "self.residual_start" = some (.tm q.1) := by subst henv1; simp
+          clear henv1
+          rw [exec_ite (d := .list (pyStk restk ++ [encSeg lp])) (b := true) (by simp [evalE, getLoc_of_lookup hout1])
+            (by simp [truthy])]
+          simp only [if_true]
+          unfold reendInner
+          have h2 : exec call fuel (.setLoc "last_prev" (.idx (.loc "out") lenOutM1)) env1
+              = .ok (setLoc "last_prev" (encSeg lp) env1, .none) := by
+            apply exec_setLoc
+            simp only [evalE, getLoc_of_lookup hout1, eval_lenOutM1 hc hout1 hlen1, ok_bind, evalIdx_last]
+          have h3 : exec call fuel (.setLoc "first_now" (.idx (.loc "sample") (.int 0))) (setLoc "last_prev" (encSeg lp) env1)
+              = .ok (setLoc "first_now" (.smp t0 (.val v0)) (setLoc "last_prev" (encSeg lp) env1), .none) := by
+            apply exec_setLoc
+            simp [evalE, getLoc_of_lookup hs1, encSig, encSmp, evalIdx, pyIndex]
+          generalize henv3 : setLoc "first_now" (DV.smp t0 (.val v0)) (setLoc "last_prev" (encSeg lp) env1) = env3 at h3
+          have hout3 : env3.lookup "out" = some (.list (pyStk restk ++ [encSeg lp])) := by subst henv3; simp [hout1]
+          have hlen3 : env3.lookup "len" = none := by subst henv3; simp [hlen1]
+          have h4 : exec call fuel (.delIdx "out" lenOutM1) env3 = .ok (setLoc "out" (.list (pyStk restk)) env3, .none) := by
+            simp only [exec, getLoc_of_lookup hout3, eval_lenOutM1 hc hout3 hlen3, ok_bind, delAt_last, pure_eq_ok]
+          have h5 : exec call fuel (.appendLoc "out" (.tup3 (.idx (.loc "last_prev") (.int 0))
+              (.bin .add (.idx (.loc "first_now") (.int 0)) (.loc "end")) (.idx (.loc "last_prev") (.int 2))))
+              (setLoc "out" (.list (pyStk restk)) env3)
+              = .ok (setLoc "out" (.list (pyStk restk ++ [.seg lp.lo (t0.add b) lp.v])) (setLoc "out" (.list (pyStk restk)) env3),
+                  .none) := by
+            apply exec_appendLoc _ (by simp)
+            subst henv3
+            simp [evalE, hend1, getLoc_of_lookup, getLoc, encSeg, hxe.add, mkSeg_tm]
+          rw [exec_seq_ok h2, exec_seq_ok h3, exec_seq_ok h4, h5]
+          refine ⟨_, rfl, ?_, ?_, ?_⟩
+          · subst henv3; simp [hrs1, encRS]
+          · simp [reend, pyStk_cons, encSeg]
+          · subst henv3
+            exact Frame.set (Frame.set (Frame.set (Frame.set hF1 _ _ (by simp)) _ _ (by simp)) _ _ (by simp)) _ _ (by simp)
+
+theorem midSeq_spec (call : Call α) (fuel : Nat) (ord : Bool) {env : Env α} {s : ASig α} {started : Bool}
+    (hs : env.lookup "sample" = some (encSig s)) (hst : env.lookup "self.started" = some (.bool started)) :
+    ∃ env', (∀ rest, exec call fuel (midSeq ord rest) env = exec call fuel rest env') ∧
+      env'.lookup "last" = some (.list []) ∧ env'.lookup "prev" = some .nan ∧
+      env'.lookup "self.started" = some (.bool (started || !s.isEmpty)) ∧
+      Frame ["last", "prev", "self.started"] env env' := by
+  -- `if sample: self.started = True`
+  have hstarted : ∀ env1 : Env α, env1.lookup "sample" = some (encSig s) → env1.lookup "self.started" = some (.bool started) →
+      ∃ env2, exec call fuel startedStmt env1 = .ok (env2, .none) ∧
+        env2.lookup "self.started" = some (.bool (started || !s.isEmpty)) ∧ Frame ["self.started"] env1 env2 := by
+    intro env1 h1 h2
+    unfold startedStmt
+    cases s with
+    | nil =>
+        rw [exec_ite (d := .list []) (b := false) (by simp [evalE, getLoc_of_lookup h1, encSig]) rfl]
+        simp only [Bool.false_eq_true, if_false]
+        exact ⟨env1, exec_skip, by simpa using h2, Frame.refl _ _⟩
+    | cons p rest =>
+        rw [exec_ite (d := encSig (p :: rest)) (b := true) (by simp [evalE, getLoc_of_lookup h1]) (by simp [encSig, truthy])]
+        simp only [if_true]
+        rw [exec_setLoc (v := .bool true) (by simp [evalE])]
+        exact ⟨_, rfl, by simp, Frame.set (Frame.refl _ _) _ _ (by simp)⟩
+  cases ord with
+  | true =>
+      obtain ⟨env2, e1, e2, e3⟩ := hstarted (setLoc "last" (.list []) env) (by simp [hs]) (by simp [hst])
+      refine ⟨setLoc "prev" .nan env2, ?_, ?_, by simp, by simp [e2], ?_⟩
+      · intro rest
+        unfold midSeq
+        rw [exec_seq_ok (exec_setLoc (v := .list []) (by simp [evalE])), exec_seq_ok e1,
+          exec_seq_ok (exec_setLoc (v := .nan) (by simp [evalE]))]
+      · rw [lookup_setLoc, if_neg (by simp), e3 _ (by simp)]; simp
+      · exact Frame.set (Frame.trans (Frame.set (Frame.refl _ _) _ _ (by simp)) (e3.mono (by simp))) _ _ (by simp)
+  | false =>
+      obtain ⟨env2, e1, e2, e3⟩ := hstarted env hs hst
+      refine ⟨setLoc "last" (.list []) (setLoc "prev" .nan env2), ?_, by simp, by simp, by simp [e2], ?_⟩
+      · intro rest
+        unfold midSeq
+        rw [exec_seq_ok e1, exec_seq_ok (exec_setLoc (v := .nan) (by simp [evalE])),
+          exec_seq_ok (exec_setLoc (v := .list []) (by simp [evalE]))]
+      · exact Frame.set (Frame.set (e3.mono (by simp)) _ _ (by simp)) _ _ (by simp)
+
+theorem finalStmt_spec (call : Call α) (fuel : Nat) {env : Env α} {res : ASig α} {last : Option (Tm × α)}
+    (hres : env.lookup "sample_result" = some (encSig res)) (hlast : env.lookup "last" = some (encOptSmp last)) :
+    ∃ env', exec call fuel finalStmt env = .ok (env', .none) ∧
+      env'.lookup "sample_result" = some (encSig (finalRes res last)) ∧ Frame ["sample_result"] env env' := by
+  have gl := getLoc_of_lookup hlast
+  have gr := getLoc_of_lookup hres
+  unfold finalStmt
+  cases last with
+  | none =>
+      rw [exec_ite (d := .list []) (b := false) (by simp [evalE, gl, encOptSmp]) rfl]
+      simp only [Bool.false_eq_true, if_false]
+      exact ⟨env, exec_skip, by simpa [finalRes] using hres, Frame.refl _ _⟩
+  | some p =>
+      obtain ⟨t, v⟩ := p
+      rw [exec_ite (d := .smp t (.val v)) (b := true) (by simp [evalE, gl, encOptSmp, encSmp]) rfl]
+      simp only [if_true]
+      rcases List.eq_nil_or_concat res with rfl | ⟨l, q, hq⟩
+      · rw [exec_ite (d := .bool true) (b := true) (by simp [evalE, gr, encSig, truthy]) rfl]
+        simp only [if_true]
+        rw [exec_appendLoc (v := .smp t (.val v)) (l := []) (by simp [evalE, gl, encOptSmp, encSmp])
+          (by simpa [encSig] using hres)]
+        exact ⟨_, rfl, by simp [finalRes, encSig, encSmp], Frame.set (Frame.refl _ _) _ _ (by simp)⟩
+      · rw [List.concat_eq_append] at hq
+        subst hq
+        have henc : encSig (l ++ [q]) = .list (l.map encSmp ++ [encSmp q]) := by simp [encSig]
+        rw [henc] at hres gr
+        rw [exec_ite (d := .bool false) (b := false) (by simp [evalE, gr, truthy]) rfl]
+        simp only [Bool.false_eq_true, if_false]
+        have hcond : evalE call env (.bin .gt (.idx (.loc "last") (.int 0))
+            (.idx (.idx (.loc "sample_result") (.neg (.int 1))) (.int 0))) = .ok (.bool (Tm.lt q.1 t)) := by
+          have e1 : evalE call env (.idx (.loc "sample_result") (.neg (.int 1))) = .ok (encSmp q) := by
+            rw [evalE_idx (x := .list (l.map encSmp ++ [encSmp q])) (k := .int (-1)) (by simp [evalE, gr])
+              (by simp [evalE, evalNeg])]
+            exact evalIdx_neg1 _ _
+          have e2 : evalE call env (.idx (.idx (.loc "sample_result") (.neg (.int 1))) (.int 0)) = .ok (.tm q.1) := by
+            rw [evalE_idx e1 (show evalE call _ (.int 0) = .ok (.int 0) from rfl)]; simp [encSmp]
+          have e3 : evalE call env (.idx (.loc "last") (.int 0)) = .ok (.tm t) := by
+            simp [evalE, gl, encOptSmp, encSmp]
+          rw [evalE, e3, e2]
+          simp [cmpGtTm]
+        rw [exec_ite hcond rfl]
+        have hfin : finalRes (l ++ [q]) (some (t, v)) = if Tm.lt q.1 t then (l ++ [q]) ++ [(t, v)] else l ++ [q] := by
+          simp [finalRes]
+        rw [hfin]
+        cases Tm.lt q.1 t with
+        | false =>
+            simp only [Bool.false_eq_true, if_false]
+            exact ⟨env, exec_skip, by rw [hres, henc], Frame.refl _ _⟩
+        | true =>
+            simp only [if_true]
+            rw [exec_appendLoc (v := .smp t (.val v)) (by simp [evalE, gl, encOptSmp, encSmp]) hres]
+            exact ⟨_, rfl, by simp [encSig, encSmp], Frame.set (Frame.refl _ _) _ _ (by simp)⟩
+
+/-! ### the mirror, in the shape the code has -/
+
+theorem timedUpdateCore_eq (worse : α → α → Bool) (neutral : α) (a b : Rat) (st : TimedSt α) (s : ASig α) :
+    timedUpdateCore worse neutral a b st s =
+      (do let stk ← (onSegs a b s).foldlM (pushSeg worse) (withInit neutral a st.started s 0 (reend b s st.segs.reverse))
+          pure ({ segs := (timedEmit (newRS st.rs s) stk.reverse none [] none []).2.2, rs := newRS st.rs s,
+                  started := st.started || !s.isEmpty },
+                finalRes (timedEmit (newRS st.rs s) stk.reverse none [] none []).1
+                  (timedEmit (newRS st.rs s) stk.reverse none [] none []).2.1)) := by
+  unfold timedUpdateCore
+  cases s with
+  | nil =>
+      simp only [withInit, reend, List.reverse_reverse]
+      rfl
+  | cons p rest =>
+      obtain ⟨t0, v0⟩ := p
+      cases hseg : st.segs.reverse with
+      | nil =>
+          have : st.segs = [] := by simpa using hseg
+          simp only [withInit, reend, this, List.reverse_nil]
+          cases (t0 == Tm.zero && decide (0 < a) && !st.started) <;> rfl
+      | cons lp restRev =>
+          simp only [withInit, reend]
+          cases (t0 == Tm.zero && decide (0 < a) && !st.started)
+          · simp only [Bool.false_eq_true, if_false, List.reverse_reverse]; rfl
+          · simp only [if_true, List.reverse_append, List.reverse_reverse, List.reverse_cons, List.reverse_nil,
+              List.nil_append, List.cons_append]; rfl
+
+theorem dropRepeat_length (rs : Option Tm) (s : ASig α) : (dropRepeat rs s).length ≤ s.length := by
+  unfold dropRepeat
+  split
+  · split <;> simp
+  · simp
+
+theorem newRS_none {rs : Option Tm} {s : ASig α} (h : newRS rs s = none) : s = [] ∧ rs = none := by
+  unfold newRS at h
+  cases hs : s.getLast? with
+  | none => rw [hs] at h; exact ⟨by simpa using hs, h⟩
+  | some q => rw [hs] at h; cases h
+
+/-- the names `update` assigns to -/
+def MODS : List String :=
+  ["sample_result", "out", "self.prev", "begin", "end", "sample", "self.residual_start", "last_prev", "first_now", "i", "a",
+    "b", "self.started", "prev", "last"]
+
+/-! ### the whole body of `update` -/
+
+theorem upd_exec {opW opK : BinOp} {ninit : E} {neg : Bool} {worse : α → α → Bool} {neutral : α}
+    (hp : Par α opW opK ninit neg worse neutral) {call : Call α} (hc : CallOK call) (fuel : Nat) (ord : Bool)
+    {env0 : Env α} {st : TimedSt α} {s : ASig α} {a b : Rat} {xb xe : DV α}
+    (hs : env0.lookup "sample" = some (encSig s))
+    (hprev : env0.lookup "self.prev" = some (.list (st.segs.map encSeg)))
+    (hrs : env0.lookup "self.residual_start" = some (encRS neg st.rs))
+    (hst : env0.lookup "self.started" = some (.bool st.started))
+    (hbeg : env0.lookup "self.begin" = some xb) (hxb : FinOK xb a)
+    (hend : env0.lookup "self.end" = some xe) (hxe : FinOK xe b)
+    (hlen : env0.lookup "len" = none) (hint : env0.lookup "intersects" = none)
+    (hinv : st.rs = none → st.segs = [])
+    (hinf : st.rs = none → neg = false → ∀ t v rest, s = (t, v) :: rest → t ≠ .inf)
+    (hfuel : st.segs.length + s.length + 1 ≤ fuel) :
+    match timedUpdate worse neutral a b st s with
+    | .ok (st', out) => ∃ env', exec call fuel (updBody opW opK ninit ord) env0 = .ok (env', .ret (encSig out)) ∧
+        env'.lookup "self.prev" = some (.list (st'.segs.map encSeg)) ∧
+        env'.lookup "self.residual_start" = some (encRS neg st'.rs) ∧
+        env'.lookup "self.started" = some (.bool st'.started) ∧
+        (st'.rs = none → st'.segs = []) ∧ Frame MODS env0 env'
+    | .error e => exec call fuel (updBody opW opK ninit ord) env0 = .error e := by
+  unfold updBody
+  rw [exec_seq_ok (exec_setLoc (v := .list []) (by simp [evalE])),
+    exec_seq_ok (exec_setLoc (v := .list (st.segs.map encSeg)) (by simp [evalE, getLoc_of_lookup hprev])),
+    exec_seq_ok (exec_setLoc (v := .list []) (by simp [evalE])),
+    exec_seq_ok (exec_setLoc (v := xb) (by simp [evalE, getLoc_of_lookup hbeg])),
+    exec_seq_ok (exec_setLoc (v := xe) (by simp [evalE, getLoc_of_lookup hend]))]
+  generalize henv5 : setLoc "end" xe (setLoc "begin" xb (setLoc "self.prev" (DV.list []) (setLoc "out"
+    (DV.list (st.segs.map encSeg)) (setLoc "sample_result" (DV.list []) env0)))) = env5
+  have hF5 : Frame MODS env0 env5 := by
+    subst henv5
+    exact Frame.set (Frame.set (Frame.set (Frame.set (Frame.set (Frame.refl _ _) _ _ (by simp [MODS])) _ _ (by simp [MODS])) _ _
+      (by simp [MODS])) _ _ (by simp [MODS])) _ _ (by simp [MODS])
+  have hs5 : env5.lookup "sample" = some (encSig s) := by subst henv5; simp [hs]
+  have hrs5 : env5.lookup "self.residual_start" = some (encRS neg st.rs) := by subst henv5; simp [hrs]
+  have hout5 : env5.lookup "out" = some (.list (pyStk st.segs.reverse)) := by subst henv5; simp [pyStk]
+  have hprev5 : env5.lookup "self.prev" = some (.list []) := by subst henv5; simp
+  have hres5 : env5.lookup "sample_result" = some (.list []) := by subst henv5; simp
+  have hbeg5 : env5.lookup "begin" = some xb := by subst henv5; simp
+  have hend5 : env5.lookup "end" = some xe := by subst henv5; simp
+  have hst5 : env5.lookup "self.started" = some (.bool st.started) := by subst henv5; simp [hst]
+  have hlen5 : env5.lookup "len" = none := by subst henv5; simp [hlen]
+  have hint5 : env5.lookup "intersects" = none := by subst henv5; simp [hint]
+  clear henv5
+  -- the repeated first sample
+  obtain ⟨env6, h6, hs6, hF6⟩ := dropStmt_spec call fuel hs5 hrs5 hinf
+  have hl6 : ∀ x, x ≠ "sample" → env6.lookup x = env5.lookup x := fun x hx => hF6 x (by simpa using hx)
+  rw [exec_seq_ok h6]
+  generalize hs' : dropRepeat st.rs s = s' at hs6
+  have hlen' : s'.length ≤ s.length := by rw [← hs']; exact dropRepeat_length _ _
+  -- the last pending segment
+  obtain ⟨env7, h7, hrs7, hout7, hF7⟩ := reendStmt_spec hc fuel (b := b) (xe := xe) hs6 (by rw [hl6 _ (by simp)]; exact hrs5)
+    (by rw [hl6 _ (by simp)]; exact hout5) (by rw [hl6 _ (by simp)]; exact hend5) hxe (by rw [hl6 _ (by simp)]; exact hlen5)
+  have hl7 : ∀ x, x ≠ "self.residual_start" → x ≠ "last_prev" → x ≠ "first_now" → x ≠ "out" →
+      env7.lookup x = env5.lookup x := by
+    intro x h1 h2 h3 h4
+    rw [hF7 x (by simp [h1, h2, h3, h4])]
+    by_cases hx : x = "sample"
+    · subst hx; rw [hs6, hs5] at *; exact absurd rfl (by simp at h1)
+    · exact hl6 x hx
+  rw [exec_seq_ok h7, exec_seq_ok (exec_setLoc (v := .int 1) (by simp [evalE]))]
+  sorry
+
 end GOnTimed
 end Rtamt.Py.DnOn
